@@ -58,6 +58,31 @@ CLAIMS['C05'] = dict(
     design_ref='DESIGN.md 3/C05',
     note='necessary-condition check; each guard in the table carries its necessity argument')
 
+CLAIMS['C09'] = dict(
+    technique='static path analysis (must-pass obligations on every accepting control-flow path of the instantiated decoders, with the `checked` parameter fixed), followed into the callees that discharge them',
+    category='other',
+    text='For the four Encoding::decode instantiations: every validating accepting path passes the form test, identity-encoding tests, a canonicality test, curve membership and the subgroup test with rejecting edges returning false; the non-validating path performs the same state changes; flag constants are disjoint and shared by encode/decode. Value round-trip equality is NOT decided.',
+    design_ref='DESIGN.md 3/C09',
+    note='exhaustive over paths (loops bounded to one iteration); arithmetic of is_on_curve/legendre/square_root not decided')
+CLAIMS['C11'] = dict(
+    technique='static path analysis: enumeration of all acyclic loop-body paths of the four key-derivation loops, abstracted by the outcomes of the cursor tests (predicate abstraction), with per-path cursor-progress obligations',
+    category='other',
+    text='Partial claim (bookkeeping only): on every path a cursor whose match is not refuted advances, a consumed attribute never emits a free slot, one slot at most is written per iteration together with j++, the key length is set to j. Key distribution and the pairing equations are NOT decided.',
+    design_ref='DESIGN.md 3/C11',
+    note='assumes sorted attribute / free-slot lists (documented precondition)')
+CLAIMS['C12'] = dict(
+    technique='static path analysis of the same loops (hidden-attribute paths write no key material) and a totality rule on precompute',
+    category='other',
+    text='Partial claim: hidden slots contribute neither to the key nor a delegation component on any path; visible matched attributes do enter the key; precompute binds every listed attribute. Non-decryptability is a cryptographic statement and is NOT decided.',
+    design_ref='DESIGN.md 3/C12',
+    note='necessary conditions only')
+CLAIMS['C15'] = dict(
+    technique='static analysis: affine buffer-offset (footprint) analysis of marshal/unmarshal vs the length formulas, writer/reader field pairing, finite-domain evaluation of the first-byte predicates, edge-dominance rules for length guards, must-check rule for decode verdicts',
+    category='other',
+    text='For all 22 marshal/unmarshal pairs: the bytes touched tile exactly [0, marshalledLength) for both signature settings and several slot counts, writer and reader agree field by field and codec by codec, length discovery agrees with what unmarshal consumes for all 256 first bytes and is guarded, every decode verdict propagates. Equality of values after a round trip is NOT decided.',
+    design_ref='DESIGN.md 3/C15',
+    note='affine forms are exact for these walks (else the check reports that it cannot model the walk)')
+
 NA = {
  'C03': 'bit-equality of assembly and C++ back ends over 2^768 inputs is a numerical equivalence: needs execution or a solver (other families); structural asm facts are decided under C17/C18/C20',
  'C13': 'acceptance/rejection is the value of a pairing-product equation; no structural clause beyond the sign/verify delegation decided under C14',
